@@ -869,11 +869,9 @@ theorem inv_remove {s s' : State} (h : Inv s) {id : Nat} {wk : WKey} (hg : s.adm
 /-! ### the TTL sweeper -/
 
 theorem inv_sweepEvict {s : State} (h : Inv s) (id : Nat) : Inv (sweepEvict s id).1 := by
-  unfold sweepEvict
-  cases hg : s.adm.kw.get? id with
-  | none => rw [Adm.delete_none hg]; exact h
-  | some wk =>
-    rw [Adm.delete_some hg]
+  rcases sweepEvict_cases s id with h0 | ⟨wk, hg, _, h1⟩
+  · rw [h0]; exact h
+  · rw [h1]
     dsimp only
     obtain ⟨e1, e2, e3, e4, e5, e6, _⟩ := applyEvictId_frame
       { s with adm := { s.adm with kw := s.adm.kw.del id, used := s.adm.used - wk.weight } } (id, wk.key, wk.weight)
@@ -893,11 +891,9 @@ theorem inv_sweepEvict {s : State} (h : Inv s) (id : Nat) : Inv (sweepEvict s id
 
 theorem sweepEvict_frame (s : State) (id : Nat) :
     (sweepEvict s id).1.ttl = s.ttl ∧ (sweepEvict s id).1.now = s.now := by
-  unfold sweepEvict
-  cases hg : s.adm.kw.get? id with
-  | none => rw [Adm.delete_none hg]; exact ⟨rfl, rfl⟩
-  | some wk =>
-    rw [Adm.delete_some hg]
+  rcases sweepEvict_cases s id with h0 | ⟨wk, _, _, h1⟩
+  · rw [h0]; exact ⟨rfl, rfl⟩
+  · rw [h1]
     dsimp only
     obtain ⟨_, _, _, _, _, _, e7, e8, _⟩ := applyEvictId_frame
       { s with adm := { s.adm with kw := s.adm.kw.del id, used := s.adm.used - wk.weight } } (id, wk.key, wk.weight)
@@ -1629,11 +1625,9 @@ theorem noGrow_resume {s s' : State} {out : Out} (h : 0 ≤ s.adm.used) {c : Nat
         rw [e]; exact h0.trans (noGrow_shutdownSendBuf (s := { s with pend := s.pend.del c }) h c)
 
 theorem noGrow_sweepEvict {s : State} (h : Inv s) (id : Nat) : NoGrow s (sweepEvict s id).1 := by
-  unfold sweepEvict
-  cases hg : s.adm.kw.get? id with
-  | none => rw [Adm.delete_none hg]; exact NoGrow.refl _
-  | some wk =>
-    rw [Adm.delete_some hg]
+  rcases sweepEvict_cases s id with h0 | ⟨wk, hg, _, h1⟩
+  · rw [h0]; exact NoGrow.refl _
+  · rw [h1]
     dsimp only
     obtain ⟨e1, e2, e3, _⟩ := applyEvictId_frame
       { s with adm := { s.adm with kw := s.adm.kw.del id, used := s.adm.used - wk.weight } } (id, wk.key, wk.weight)
